@@ -104,24 +104,24 @@ type Ctx struct {
 	OutDir  string
 	T       *testing.T
 
-	mu          sync.Mutex
-	start       time.Time
-	known       []*Known
-	evals       int64
-	labels      map[string]int64
-	nontrivial  map[uint64]struct{}
-	samples     []any
-	sampleKeys  map[string]bool
-	knownHits   map[string]int64
-	knownSigs   map[string]map[string]struct{}
-	knownLive   map[string]bool // witness still reproduces
-	excluded    map[string]int64
-	violations  []Violation
-	violSigs    map[string]bool
-	inconcl     []string
-	extra       map[string]any
-	exhaustive  *bool
-	subChecks   map[string]int64
+	mu         sync.Mutex
+	start      time.Time
+	known      []*Known
+	evals      int64
+	labels     map[string]int64
+	nontrivial map[uint64]struct{}
+	samples    []any
+	sampleKeys map[string]bool
+	knownHits  map[string]int64
+	knownSigs  map[string]map[string]struct{}
+	knownLive  map[string]bool // witness still reproduces
+	excluded   map[string]int64
+	violations []Violation
+	violSigs   map[string]bool
+	inconcl    []string
+	extra      map[string]any
+	exhaustive *bool
+	subChecks  map[string]int64
 }
 
 // Violation is a reported, unlisted deviation.
